@@ -50,7 +50,7 @@ def boundary_grid(run):
         sts = []
         for p in rng_pos:
             sts += [("skip", p), ("take", p), ("insert", p, 9), ("insertMany", p, (8, 9)), ("insertMany", p, ()),
-                    ("slice", p), ("splitAt", p), ("enumerate", p)]
+                    ("slice", p), ("splitAt", p), ("enumerate", p), ("index", p), ("times", p)]
             for c in cnts:
                 sts += [("delete", p, c), ("replace", p, 9, c), ("replaceMany", p, (8, 9), c)]
                 if run.tier != "quick":
@@ -60,7 +60,8 @@ def boundary_grid(run):
                 ("sum", sc.NOSEED), ("sum", 0), ("min",), ("max",), ("aggregate", ("add2",), sc.NOSEED),
                 ("accumulate", ("add2",), sc.NOSEED), ("accumulate", ("add2",), 5), ("reverse",), ("distinct", None),
                 ("indexOf", 2), ("lastIndexOf", 2), ("indexOf", 7), ("any", None), ("all", None), ("toSet",),
-                ("orderBy", ("id",), False), ("groupBy", ("mod", 2), None), ("dictFromItems",), ("cycle",)]
+                ("orderBy", ("id",), False), ("groupBy", ("mod", 2), None), ("dictFromItems",), ("cycle",),
+                ("flatten",), ("defaultIfEmpty", (7,)), ("isList",), ("isIterable",), ("isSet",), ("isDict",), ("in", 2), ("in", None)]
         for s in sts:
             if None in l and s[0] in ("sum", "min", "max", "aggregate", "accumulate", "groupBy", "enumerate") and s[0] != "enumerate":
                 continue
